@@ -48,6 +48,12 @@ CHECKS["C12"] = dict(
     note="Forward calls are counted by wrapping holopy.inference.model.calc_holo in the harness process. One medium_index key stands for the optics keys (wavelength/polarization follow it).",
     ref="5 C12")
 
+CHECKS["C07"] = dict(
+    technique="TLA+ spec DetectorViews.tla (exact lattice positions of every view of every small detector) model-checked by TLC and replayed with real theories; DetectorViewsTrace.tla validates recorded make_subset_data calls",
+    text="TLC enumerates every grid up to 3x3 (quick) / 4x4 (thorough) incl. 1xN, two spacings per axis, shifted origins, every crop window and three point-list orders with the exact position of every element of the view; each state is replayed with a real theory (Mie, layered Mie, Multisphere, T-matrix, MieLens in rotation): the hologram at a position must equal the full-grid value whatever the view (1e-12), positions and point order must match the spec, inputs untouched. Calls of make_subset_data (sizes 1..all, seeds incl. 0, shapes incl. 1x3) are recorded and validated by a TLC trace spec: distinct in-range indices, position = index rule, values/metadata/original axes kept, reproducible for a seed, commutes with calc_holo. A random sequence of calc_holo/calc_field/calc_intensity calls sharing one detector must leave it unmodified and repeat exactly.",
+    note="Point-detector results carry no x/y coordinates in HoloPy; they are matched to the input points by order. Continuous geometry concretised on a 0.1 lattice.",
+    ref="5 C07")
+
 NOT_APPLICABLE = []
 
 
